@@ -146,6 +146,9 @@ def trainings(tier, rng):
                 out += cur
             pws.append(out)
         combos.append(('skewed%d' % k, pws, rng.choice([2, 2, 3]), rng.choice([10, 100]), 0.6))
+    from . import lists as _lists
+    for sname, (pws, sopt) in sorted(_lists.special_lists().items()):
+        combos.append(('special:' + sname, list(pws), rng.choice([2, 3]), 100, sopt.get('coverage', 0.6)))
     if tier == 'thorough':
         for k in range(30):
             alpha = rng.choice(['ab', 'abc', 'abcd1', 'xyz12'])
